@@ -134,6 +134,32 @@ def attr(key, field, val):
     return {"key": key, "value": {"Value": {field: val}}}
 
 
+def candidate_pool():
+    """candidates in the documented forms, by the level whose element they read"""
+    sv = lambda f: ["value", "Value", f]          # noqa: E731
+    pool = [plain(0, "header", "system"), plain(1, "resource", "name"), plain(2, "scope", "name"),
+            plain(3, "name"), plain(3, "not_here"), plain(3, "links", "parent"), plain(3, "trace_id")]
+    for key in ("service.name", "service.version"):
+        for f in ("StringValue", "IntValue"):
+            pool.append(lookup(1, ["resource", "attributes"], key, sv(f)))
+    for key in ("http.method", "http.response", "absent.key"):
+        for f in ("StringValue", "IntValue"):
+            pool.append(lookup(3, ["attributes"], key, sv(f)))
+    return pool
+
+
+def free_mapping(rnd):
+    """a mapping whose descriptive fields are drawn freely from the candidate pool: 1-2 concatenation positions, each a
+    priority list of 1-3 candidates (identifiers and timestamps keep their plain paths so that records stay valid)"""
+    m = default_mapping()
+    pool = candidate_pool()
+    for f in ("job_name", "event_type", "application_name"):
+        m[f] = [[rnd.choice(pool) for _ in range(rnd.choice((1, 1, 2, 3)))] for _ in range(rnd.choice((1, 1, 2)))]
+    if rnd.random() < 0.5:
+        m["parent_event_id"] = [[plain(3, "parent_span_id")] + [rnd.choice(pool) for _ in range(rnd.choice((0, 1)))]]
+    return m
+
+
 def random_doc(rnd, nres=(1, 2), nscope=(0, 2), nspan=(0, 3), holes=0.2):
     """an OTel-shaped document with missing keys, empty arrays, nulls and several resource / scope groups"""
     cnt = [0]
@@ -158,7 +184,7 @@ def random_doc(rnd, nres=(1, 2), nscope=(0, 2), nspan=(0, 3), holes=0.2):
         if rnd.random() > holes:
             attrs.append(attr("service.name", "StringValue", "svc%d" % ri))
         if rnd.random() > 0.5:
-            attrs.append(attr("service.version", "StringValue", "%d.0" % ri))
+            attrs.append(attr("service.version", rnd.choice(["StringValue", "IntValue"]), "%d.0" % ri))
         rnd.shuffle(attrs)
         if rnd.random() > holes / 2:
             res["attributes"] = attrs
@@ -189,7 +215,7 @@ def random_doc(rnd, nres=(1, 2), nscope=(0, 2), nspan=(0, 3), holes=0.2):
                 if rnd.random() > 0.3:
                     at.append(attr("http.method", "StringValue", rnd.choice(["GET", "PUT"])))
                 if rnd.random() > 0.3:
-                    at.append(attr("http.response", "IntValue", rnd.choice(["200", 404])))
+                    at.append(attr("http.response", rnd.choice(["IntValue", "IntValue", "StringValue"]), rnd.choice(["200", 404])))
                 rnd.shuffle(at)
                 if rnd.random() > holes / 2:
                     sp["attributes"] = at
